@@ -111,7 +111,9 @@ def append_attributes(*args: Tuple[str, Any]) -> Dict:
 
     for key, value in args:
         if key in result:
-            result[key] += " " + value
+            # NOTE: Values may be numbers etc (e.g. `data-id=123`), so we stringify them before joining,
+            #       same as when a keyword is repeated on the `{% html_attrs %}` tag.
+            result[key] = str(result[key]) + " " + str(value)
         else:
             result[key] = value
 
